@@ -77,11 +77,11 @@ def pieceSteps (p : Piece) : Nat :=
 def piecesSteps (ps : List Piece) : Nat := (ps.map pieceSteps).sum
 
 theorem lexCore_ws (c : Char) (h : Lex.isWs c = true) (f : Nat) (r : List Char)
-    (st : List (Delim × Nat)) : Lex.lexCore (f + 1) (c :: r) st = Lex.lexCore f r st := by
+    (st : List (Delim × Lex.Mark)) : Lex.lexCore (f + 1) (c :: r) st = Lex.lexCore f r st := by
   rw [Lex.lexCore]; simp [h]
 
 theorem lexCore_skip (c : Char) (r rest : List Char) (hws : Lex.isWs c = false)
-    (h : Lex.scanSlash (c :: r) = .skip rest) (f : Nat) (st : List (Delim × Nat)) :
+    (h : Lex.scanSlash (c :: r) = .skip rest) (f : Nat) (st : List (Delim × Lex.Mark)) :
     Lex.lexCore (f + 1) (c :: r) st = Lex.lexCore f rest st := by
   rw [Lex.lexCore]; simp [hws, h]
 
@@ -133,7 +133,7 @@ theorem scanSlash_block (b rest : List Char) (h1 : Lex.blockEnd 0 (b ++ ['*', '/
       (fun r' e => by simp only [List.cons.injEq] at e; exact ha e.1)]
     simp [Lex.plainBlock, hb]
 
-theorem lexCore_piece (p : Piece) (f : Nat) (rest : List Char) (st : List (Delim × Nat)) :
+theorem lexCore_piece (p : Piece) (f : Nat) (rest : List Char) (st : List (Delim × Lex.Mark)) :
     Lex.lexCore (pieceSteps p + f) (p.text ++ rest) st = Lex.lexCore f rest st := by
   by_cases hv : p.valid = true
   · cases p with
@@ -170,7 +170,7 @@ theorem lexCore_piece (p : Piece) (f : Nat) (rest : List Char) (st : List (Delim
     simp only [Piece.text, hv, Bool.false_eq_true, if_false, List.cons_append, List.nil_append]
     exact lexCore_ws ' ' (by decide) f rest st
 
-theorem lexCore_pieces (ps : List Piece) (f : Nat) (rest : List Char) (st : List (Delim × Nat)) :
+theorem lexCore_pieces (ps : List Piece) (f : Nat) (rest : List Char) (st : List (Delim × Lex.Mark)) :
     Lex.lexCore (piecesSteps ps + f) (Print.piecesText ps ++ rest) st = Lex.lexCore f rest st := by
   induction ps with
   | nil => simp [piecesSteps, Print.piecesText]
@@ -332,7 +332,7 @@ theorem lexLeaf_str' (s : List Char) (T : List Char) (hT : FollowStr T) :
     (by have := length_esc_ge s; simp only [List.length_append, List.length_cons]; omega)
   simp only [Print.spellStr, List.cons_append, List.append_assoc, List.nil_append]
   rw [Lex.lexLeaf]
-  simp only [if_true]
+  simp only [if_true, Lex.cookedAll]
   rw [hc]
   simp [Lex.strTok, dropSuffix_follow hT]
 
@@ -600,7 +600,7 @@ theorem scanSlash_blockDoc (inner : Bool) (t rest : List Char) (h : Print.blockD
 /-- `token_stream` on a doc comment -/
 theorem lexCore_doc (inner : Bool) (t : List Char) (block : Bool) (rest : List Char)
     (h : if block then Print.blockDocOk inner t = true else Print.lineDocOk inner t = true) :
-    ∃ n m, ∀ (f : Nat) (st : List (Delim × Nat)),
+    ∃ n m, ∀ (f : Nat) (st : List (Delim × Lex.Mark)),
       Lex.lexCore ((if block then 1 else 2) + f) (Print.docText inner t block ++ rest) st
         = (Lex.lexCore f rest st).map (Lex.docToks inner t n m ++ ·) := by
   have hhead : ∃ r, Print.docText inner t block ++ rest = '/' :: r := by
@@ -611,14 +611,14 @@ theorem lexCore_doc (inner : Bool) (t : List Char) (block : Bool) (rest : List C
     simp only [if_true] at h ⊢
     have hs := scanSlash_blockDoc inner t rest h
     rw [hr] at hs
-    refine ⟨('/' :: r).length, rest.length, fun f st => ?_⟩
+    refine ⟨Lex.here ('/' :: r), Lex.here rest, fun f st => ?_⟩
     rw [hr, show 1 + f = f + 1 by omega, Lex.lexCore]
     simp only [show Lex.isWs '/' = false from by decide, Bool.false_eq_true, if_false, hs]
   | false =>
     simp only [Bool.false_eq_true, if_false] at h ⊢
     have hs := scanSlash_lineDoc inner t rest h
     rw [hr] at hs
-    refine ⟨('/' :: r).length, ('\n' :: rest).length, fun f st => ?_⟩
+    refine ⟨Lex.here ('/' :: r), Lex.here ('\n' :: rest), fun f st => ?_⟩
     rw [hr, show 2 + f = (f + 1) + 1 by omega, Lex.lexCore]
     simp only [show Lex.isWs '/' = false from by decide, Bool.false_eq_true, if_false, hs]
     rw [lexCore_ws '\n' (by decide)]
@@ -1091,30 +1091,30 @@ open Print (digitsLE digitChar Base Piece Trivia)
 /-- the gap after a token is skipped in `n ≤ length` iterations -/
 theorem gap_skip (k : K) (b? : Option K) (ps : List Piece) :
     ∃ n, n ≤ (Print.gapText k b? ps).length ∧
-      ∀ (m : Nat) (R : List Char) (st : List (Delim × Nat)),
+      ∀ (m : Nat) (R : List Char) (st : List (Delim × Lex.Mark)),
         Lex.lexCore (n + m) (Print.gapText k b? ps ++ R) st = Lex.lexCore m R st := by
   have hpieces : ∃ n, n ≤ (Print.piecesText ps).length ∧
-      ∀ (m : Nat) (R : List Char) (st : List (Delim × Nat)),
+      ∀ (m : Nat) (R : List Char) (st : List (Delim × Lex.Mark)),
         Lex.lexCore (n + m) (Print.piecesText ps ++ R) st = Lex.lexCore m R st :=
     ⟨piecesSteps ps, piecesSteps_le ps, fun m R st => lexCore_pieces ps m R st⟩
   have hsp : ∃ n, n ≤ [' '].length ∧
-      ∀ (m : Nat) (R : List Char) (st : List (Delim × Nat)),
+      ∀ (m : Nat) (R : List Char) (st : List (Delim × Lex.Mark)),
         Lex.lexCore (n + m) ([' '] ++ R) st = Lex.lexCore m R st :=
     ⟨1, by simp, fun m R st => by
       rw [show 1 + m = m + 1 by omega]; exact lexCore_ws ' ' (by decide) m R st⟩
   have hsp2 : ∃ n, n ≤ (' ' :: Print.piecesText ps).length ∧
-      ∀ (m : Nat) (R : List Char) (st : List (Delim × Nat)),
+      ∀ (m : Nat) (R : List Char) (st : List (Delim × Lex.Mark)),
         Lex.lexCore (n + m) (' ' :: Print.piecesText ps ++ R) st = Lex.lexCore m R st :=
     ⟨piecesSteps ps + 1, by have := piecesSteps_le ps; simp; omega, fun m R st => by
       rw [show piecesSteps ps + 1 + m = (piecesSteps ps + m) + 1 by omega]
       simp only [List.cons_append]
       rw [lexCore_ws ' ' (by decide), lexCore_pieces]⟩
   have hnil : ∃ n, n ≤ ([] : List Char).length ∧
-      ∀ (m : Nat) (R : List Char) (st : List (Delim × Nat)),
+      ∀ (m : Nat) (R : List Char) (st : List (Delim × Lex.Mark)),
         Lex.lexCore (n + m) ([] ++ R) st = Lex.lexCore m R st :=
     ⟨0, by simp, fun m R st => by simp⟩
   have main : ∀ (_ : ∀ c, k ≠ .punct c true), ∃ n, n ≤ (Print.gapText k b? ps).length ∧
-      ∀ (m : Nat) (R : List Char) (st : List (Delim × Nat)),
+      ∀ (m : Nat) (R : List Char) (st : List (Delim × Lex.Mark)),
         Lex.lexCore (n + m) (Print.gapText k b? ps ++ R) st = Lex.lexCore m R st := by
     intro hk
     have hg : Print.gapText k b? ps =
@@ -1157,9 +1157,9 @@ def isLeaf : K → Bool
   | _ => true
 
 theorem leaf_step (τ : Trivia) (i : Nat) (k : K) (hl : isLeaf k = true) (hk : tokOk k = true)
-    (T : List Char) (hT : AfterLeaf k T) (m : Nat) (st : List (Delim × Nat)) :
+    (T : List Char) (hT : AfterLeaf k T) (m : Nat) (st : List (Delim × Lex.Mark)) :
     Lex.lexCore (m + 1) (Print.spellWith τ i k ++ T) st =
-      (Lex.lexCore m T st).map ((k, (Print.spellWith τ i k ++ T).length) :: ·) := by
+      (Lex.lexCore m T st).map ((k, Lex.here (Print.spellWith τ i k ++ T)) :: ·) := by
   cases k with
   | lit => simp [isLeaf] at hl
   | op _ => simp [isLeaf] at hl
@@ -1245,7 +1245,7 @@ theorem chk_docKs (st : List Delim) (inner : Bool) (s : String) (rest : List K) 
     chk st (docKs inner s ++ rest) = chk st rest := by
   cases inner <;> simp [docKs, chk, okPunct, plainId, Lex.isIdStart, Lex.isIdCont]
 
-theorem docToks_fst (inner : Bool) (s : String) (n m : Nat) :
+theorem docToks_fst (inner : Bool) (s : String) (n m : Lex.Mark) :
     (Lex.docToks inner s.toList n m).map (·.1) = docKs inner s := by
   cases inner <;> simp [Lex.docToks, docKs, String.ofList_toList]
 
@@ -1254,10 +1254,11 @@ theorem docKs_length (inner : Bool) (s : String) : 6 ≤ (docKs inner s).length 
 
 open Print (digitsLE digitChar Base Piece Trivia)
 
-theorem lexCore_open' (d : Delim) (f : Nat) (T : List Char) (st : List (Delim × Nat))
+theorem lexCore_open' (d : Delim) (f : Nat) (T : List Char) (st : List (Delim × Lex.Mark))
     (h : d = .paren → Lex.isERROR ('(' :: T) = false) :
     Lex.lexCore (f + 1) (Print.openCh d :: T) st =
-      (Lex.lexCore f T ((d, T.length + 1) :: st)).map ((K.op d, T.length + 1) :: ·) := by
+      (Lex.lexCore f T ((d, Lex.here (Print.openCh d :: T)) :: st)).map
+        ((K.op d, Lex.here (Print.openCh d :: T)) :: ·) := by
   rw [Lex.lexCore]
   cases d with
   | paren =>
@@ -1305,9 +1306,9 @@ theorem tokOk_head_of_chk (st : List Delim) (ks : List K) (st' : List Delim)
     subst hb
     exact tokOk_of_chk st _ ks' st' h
 
-theorem lexCore_renderK (τ : Trivia) : ∀ (f i : Nat) (ks : List K) (st : List (Delim × Nat))
+theorem lexCore_renderK (τ : Trivia) : ∀ (f i : Nat) (ks : List K) (st : List (Delim × Lex.Mark))
     (st' : List Delim), ks.length ≤ f → chk (st.map (·.1)) ks = some st' →
-    ∃ (toks : List (K × Nat)) (st2 : List (Delim × Nat)) (n : Nat),
+    ∃ (toks : List (K × Lex.Mark)) (st2 : List (Delim × Lex.Mark)) (n : Nat),
       toks.map (·.1) = ks ∧ st2.map (·.1) = st' ∧ n ≤ (Print.renderK τ f i ks).length ∧
       ∀ g, Lex.lexCore (n + g) (Print.renderK τ f i ks) st
         = (Lex.lexCore g [] st2).map (toks ++ ·) := by
@@ -1407,8 +1408,8 @@ theorem lexCore_renderK (τ : Trivia) : ∀ (f i : Nat) (ks : List K) (st : List
                 | true => exact absurd rfl (hk' c)
                 | false => exact this
               | _ => exact this
-          refine ⟨(k, (Print.spellWith τ i k ++ (Print.gapText k ks.head? (τ.gap i) ++
-            Print.renderK τ f (i + 1) ks)).length) :: toks, st2, 1 + (nX + n'), by simp [h1], h2, ?_,
+          refine ⟨(k, Lex.here (Print.spellWith τ i k ++ (Print.gapText k ks.head? (τ.gap i) ++
+            Print.renderK τ f (i + 1) ks))) :: toks, st2, 1 + (nX + n'), by simp [h1], h2, ?_,
             fun g => ?_⟩
           · simp only [List.length_append]; omega
           · rw [show 1 + (nX + n') + g = (nX + (n' + g)) + 1 by omega, List.append_assoc,
@@ -1426,12 +1427,12 @@ theorem lexCore_renderK (τ : Trivia) : ∀ (f i : Nat) (ks : List K) (st : List
                 Print.renderK τ f (i + 1) ks)) = false := by
               intro e; subst e
               exact isERROR_gap τ f i ks (tokOk_head_of_chk _ ks st' h) hf'
-            have hc : chk ((((d, (Print.gapText (.op d) ks.head? (τ.gap i) ++
-                Print.renderK τ f (i + 1) ks).length + 1) :: st)).map (·.1)) ks = some st' := by
+            have hc : chk ((((d, Lex.here (Print.openCh d :: (Print.gapText (.op d) ks.head? (τ.gap i) ++
+                Print.renderK τ f (i + 1) ks))) :: st)).map (·.1)) ks = some st' := by
               simpa using h
             obtain ⟨toks, st2, n', h1, h2, h3, h4⟩ := ih (i + 1) ks _ st' hf' hc
-            refine ⟨(K.op d, (Print.gapText (.op d) ks.head? (τ.gap i) ++
-              Print.renderK τ f (i + 1) ks).length + 1) :: toks, st2, 1 + (nX + n'),
+            refine ⟨(K.op d, Lex.here (Print.openCh d :: (Print.gapText (.op d) ks.head? (τ.gap i) ++
+              Print.renderK τ f (i + 1) ks))) :: toks, st2, 1 + (nX + n'),
               by simp [h1], h2, ?_, fun g => ?_⟩
             · simp only [List.length_append]; omega
             · rw [show 1 + (nX + n') + g = (nX + (n' + g)) + 1 by omega]
@@ -1448,8 +1449,8 @@ theorem lexCore_renderK (τ : Trivia) : ∀ (f i : Nat) (ks : List K) (st : List
               · subst hdd
                 simp only [if_true] at h
                 obtain ⟨toks, st2, n', h1, h2, h3, h4⟩ := ih (i + 1) ks st0 st' hf' h
-                refine ⟨(K.cl d', (Print.gapText (.cl d') ks.head? (τ.gap i) ++
-                  Print.renderK τ f (i + 1) ks).length + 1) :: toks, st2, 1 + (nX + n'),
+                refine ⟨(K.cl d', Lex.here (Print.closeCh d' :: (Print.gapText (.cl d') ks.head? (τ.gap i) ++
+                  Print.renderK τ f (i + 1) ks))) :: toks, st2, 1 + (nX + n'),
                   by simp [h1], h2, ?_, fun g => ?_⟩
                 · simp only [List.length_append]; omega
                 · rw [show 1 + (nX + n') + g = (nX + (n' + g)) + 1 by omega]
@@ -1515,7 +1516,7 @@ theorem lexL_renderT (τ : Trivia) (ks : List K) (h : chk [] ks = some []) :
     have hnil : Lex.lexCore (g + 1) [] [] = .ok [] := rfl
     rw [hnil]
     simp [Except.map]
-  refine ⟨toks.map fun p => ⟨p.1, Lex.posOfRem (Print.piecesText τ.lead ++ Print.renderK τ ks.length 0 ks) p.2⟩, ?_, ?_⟩
+  refine ⟨toks.map fun p => ⟨p.1, Lex.posOfRem (Print.piecesText τ.lead ++ Print.renderK τ ks.length 0 ks) p.2.rem⟩, ?_, ?_⟩
   · simp only [Lex.lexL, hbom]
     rw [show (Print.piecesText τ.lead ++ Print.renderK τ ks.length 0 ks).length + 1 = total + 1 from rfl, hrun]
   · simp only [List.map_map]
